@@ -51,9 +51,20 @@ AsciiSize(s) ==
               <<0, FALSE>>, [i \in 1..Len(s) |-> i])
   IN st[1]
 B256Size(s) == IF Len(s) = 0 THEN 0 ELSE 1 + (IF Len(s) <= 249 THEN 1 ELSE 2) + Len(s)
-\* upper bound on the codewords needed, from the two closed forms (-1: no closed form applies)
+\* ASCII with every maximal run of bytes >= 128 written either with upper shifts or as one Base256 run with an
+\* explicit length field (Base256 returns to ASCII by itself): a legal encoding whenever both schemes are enabled
+HighRunSize(n) == IF n = 0 THEN 0
+                  ELSE LET b == 1 + (IF n <= 249 THEN 1 ELSE 2) + n IN IF n <= 1555 /\ b < 2 * n THEN b ELSE 2 * n
+MixedSize(s) ==
+  LET st == FoldLeft(LAMBDA a, i :                                               \* <<codewords, second digit, high run>>
+                IF a[2] THEN <<a[1], FALSE, 0>>
+                ELSE IF s[i] >= 128 THEN <<a[1], FALSE, a[3] + 1>>
+                ELSE <<a[1] + HighRunSize(a[3]) + 1, i < Len(s) /\ IsDigit(s[i]) /\ IsDigit(s[i + 1]), 0>>,
+              <<0, FALSE, 0>>, [i \in 1..Len(s) |-> i])
+  IN st[1] + HighRunSize(st[3])
+\* upper bound on the codewords needed, from the closed forms (-1: no closed form applies)
 UpperBound ==
-  LET a == IF "ascii" \in En THEN AsciiSize(Body) ELSE -1
+  LET a == IF "ascii" \in En THEN (IF "b256" \in En THEN MixedSize(Body) ELSE AsciiSize(Body)) ELSE -1
       b == IF "b256" \in En /\ Len(Body) <= 1555 THEN B256Size(Body) ELSE -1
       m == IF a < 0 THEN b ELSE IF b < 0 THEN a ELSE IF a < b THEN a ELSE b
   IN IF m < 0 THEN -1 ELSE PrefixLen + m
